@@ -128,7 +128,7 @@ func init() {
 			res.Violations = append(res.Violations, Violation{Property: "C15", Sig: sig, What: what, Replay: replay})
 		}
 		r := rand.New(rand.NewSource(seed*104729 + int64(i)))
-		kind := []string{"A", "A", "B", "C", "D", "A", "E"}[i%7]
+		kind := []string{"A", "A", "B", "C", "D", "A", "E", "F", "G"}[i%9]
 		fmt.Fprintln(os.Stderr, "FRAME scenario-"+kind)
 		switch kind {
 		case "A":
@@ -248,6 +248,94 @@ func init() {
 			if !(closeAt >= 0 && closer == 2) {
 				c.s.Stop()
 			}
+		case "F":
+			// a library client whose connection is dropped by the server again and again while application goroutines
+			// call Write / IsConnected: the client reconnects (back-off 5 ms); every call returns
+			c := startWsServer(srvOpts{})
+			cl := ws.NewClient()
+			cl.SetRequestedSubProtocol("ocpp1.6")
+			cfg := ws.NewClientTimeoutConfig()
+			cfg.RetryBackOffWaitMinimum = 5 * time.Millisecond
+			cfg.RetryBackOffRandomRange = 0
+			cfg.PingPeriod, cfg.PongWait = 0, 0
+			cl.SetTimeoutConfig(cfg)
+			cl.SetMessageHandler(func([]byte) error { return nil })
+			if err := cl.Start(c.url("f")); err != nil {
+				return res
+			}
+			var stopF int32
+			var wg sync.WaitGroup
+			var calls int64
+			for w := 0; w < 3; w++ {
+				wg.Add(1)
+				go func() {
+					defer wg.Done()
+					for atomic.LoadInt32(&stopF) == 0 {
+						_ = cl.Write([]byte("x"))
+						_ = cl.IsConnected()
+						atomic.AddInt64(&calls, 1)
+						time.Sleep(200 * time.Microsecond)
+					}
+				}()
+			}
+			for k := 0; k < 8; k++ {
+				time.Sleep(15 * time.Millisecond)
+				_ = c.s.StopConnection("f", websocket.CloseError{Code: websocket.CloseInternalServerErr, Text: "drop"})
+			}
+			time.Sleep(30 * time.Millisecond)
+			atomic.StoreInt32(&stopF, 1)
+			doneW := make(chan struct{})
+			go func() { wg.Wait(); close(doneW) }()
+			select {
+			case <-doneW:
+			case <-time.After(5 * time.Second):
+				viol("write-blocked:F", "scenario F (client writers during reconnections): Write / IsConnected did not return", map[string]interface{}{"round": i, "seed": seed, "stacks": blockedIn("ws.")})
+			}
+			res.Events = int(atomic.LoadInt64(&calls))
+			cl.Stop()
+			c.s.Stop()
+		case "G":
+			// unsolicited pongs and pings from the peer while the server closes the connection, and RemoteAddr() polled by the application
+			c := startWsServer(srvOpts{})
+			for k := 0; k < 6; k++ {
+				id := fmt.Sprintf("g%d", k)
+				d := rawDial(c.url(id), []string{"ocpp1.6"}, nil)
+				if d.err != nil {
+					continue
+				}
+				waitCond(time.Second, func() bool { _, ok := c.s.GetChannel(id); return ok })
+				ch, _ := c.s.GetChannel(id)
+				var stopG int32
+				var wg sync.WaitGroup
+				wg.Add(2)
+				go func() {
+					defer wg.Done()
+					for atomic.LoadInt32(&stopG) == 0 {
+						if d.conn.WriteControl(websocket.PongMessage, []byte("p"), time.Now().Add(50*time.Millisecond)) != nil {
+							return
+						}
+						_ = d.conn.WriteControl(websocket.PingMessage, []byte("q"), time.Now().Add(50*time.Millisecond))
+					}
+				}()
+				go func() {
+					defer wg.Done()
+					defer func() { _ = recover() }()
+					for atomic.LoadInt32(&stopG) == 0 {
+						if ch != nil {
+							_ = ch.IsConnected()
+							_ = ch.ID()
+						}
+					}
+				}()
+				time.Sleep(3 * time.Millisecond)
+				_ = c.s.StopConnection(id, websocket.CloseError{Code: websocket.CloseNormalClosure, Text: ""})
+				waitCond(time.Second, func() bool { _, ok := c.s.GetChannel(id); return !ok })
+				atomic.StoreInt32(&stopG, 1)
+				wg.Wait()
+				_ = d.conn.Close()
+				res.Events++
+			}
+			c.s.Stop()
 		case "B", "C", "D", "E":
 			wc := ws.NewServerTimeoutConfig()
 			wc.WriteWait = 150 * time.Millisecond
